@@ -8,7 +8,7 @@
 
 unsigned int MML_Input::read_duration()
 {
-	int duration = 0, dot;
+	long long duration = 0, dot; // wider than the parsed int: the dots may add up to twice its value
 	try
 	{
 		int c = get();
@@ -241,7 +241,7 @@ bool MML_Input::mml_basic()
 	else if(c == '&')
 		mml_slur();
 	else if(c == 'o')
-		track->set_octave(expect_parameter() - 1);
+		track->set_octave((long long)expect_parameter() - 1);
 	else if(c == '<')
 		track->change_octave(-1);
 	else if(c == '>')
@@ -308,7 +308,7 @@ bool MML_Input::mml_envelope()
 	else if(c == 'v')
 		track->add_event(Event::VOL, expect_parameter());
 	else if(c == '(')
-		track->add_event(Event::VOL_REL, -read_parameter(1));
+		track->add_event(Event::VOL_REL, -(long long)read_parameter(1));
 	else if(c == ')')
 		track->add_event(Event::VOL_REL, read_parameter(1));
 	else if(c == 'V')
